@@ -57,6 +57,10 @@ CStepBusy == dapc = "connected" /\ s.d = "session" /\ s.mach = "paused" /\ s' = 
 CKill     == /\ dapc = "connected" /\ s.d = "session" /\ "HandlerPanics" \in Deviations
              /\ \E p \in (IF "HandlerPanicPoisons" \in Deviations THEN BOOLEAN ELSE {FALSE}) : s' = DKill(s, p)
              /\ UNCHANGED <<lspc, dapc, goal>>
+(* a connected DAP client announces a message of absurd length: with "HugeMessageAborts" the reader thread's allocation fails and *)
+(* the whole process is aborted (SIGABRT = status 1006 in the harness' encoding)                                                   *)
+CAbort    == /\ dapc = "connected" /\ s.d \in {"accepted", "session", "busy"} /\ s.exit = -1 /\ "HugeMessageAborts" \in Deviations
+             /\ s' = [s EXCEPT !.exit = 1006] /\ UNCHANGED <<lspc, dapc, goal>>
 CGoneBusy == dapc = "connected" /\ s.d = "busy" /\ dapc' = "gone" /\ UNCHANGED <<s, lspc, goal>>       \* nobody is reading the socket
 
 (* main thread *)
@@ -78,7 +82,7 @@ WakeGone == s.d = "session" /\ s.flag /\ dapc # "connected" /\ s.exit = -1 /\ Sr
 MainNext == Drain \/ Unwrap \/ SetFlag \/ Join
 DbgNext  == Top \/ Bind \/ Reg \/ Sig \/ Drop \/ Wake \/ WakeGone
 LspNext  == CInit \/ CShutdown \/ CExit \/ CClose
-DapNext  == CConnect \/ CLaunch \/ CPause \/ CGone \/ CStepBusy \/ CGoneBusy \/ CKill
+DapNext  == CConnect \/ CLaunch \/ CPause \/ CGone \/ CStepBusy \/ CGoneBusy \/ CKill \/ CAbort
 Next == MainNext \/ DbgNext \/ LspNext \/ DapNext
 (* every step of the server threads that is not blocked is eventually taken; the LSP client carries out its goal; *)
 (* the DAP client owes nothing (an attached, idle debugger must not keep the process alive)                        *)
@@ -93,8 +97,9 @@ Terminates == <>Terminated
 (* the same, weakened only by the recorded witness: the panic of the unwrap with a shared context *)
 UnwrapWitness == s.m = "panicked" /\ s.refs > 1 /\ s.exit = 101
 DeadJoinWitness == s.m = "panicked" /\ s.d = "dead" /\ s.exit = 101
-CleanExit_impl == CleanExit \/ UnwrapWitness \/ DeadJoinWitness
-TypeOK == s.refs \in 1..5 /\ s.exit \in {-1, 0, 1, 101}
+AbortWitness == s.exit = 1006
+CleanExit_impl == CleanExit \/ UnwrapWitness \/ DeadJoinWitness \/ AbortWitness
+TypeOK == s.refs \in 1..5 /\ s.exit \in {-1, 0, 1, 101, 1006}
 DebugThreadAlive == s.d # "dead"
 (* vacuity *)
 NeverPaused == s.mach # "paused"
